@@ -319,11 +319,12 @@ func c03Finish(c *Ctx) {
 
 // ------------------------------------------------------------------ C06
 
-var c06Paths = []string{"poison-pill", "kill-external", "stop-by-parent-external", "stop-from-other-actor-turn", "parent-stop", "supervisor-stop", "passivation", "restart", "self-shutdown"}
+var c06Paths = []string{"poison-pill", "kill-external", "stop-by-parent-external", "stop-from-other-actor-turn", "parent-stop", "supervisor-stop", "passivation", "restart", "self-shutdown", "supervisor-restart"}
 
 type c06State struct {
-	s    *Sys
-	path string
+	s      *Sys
+	path   string
+	second bool // a second, overlapping stop request of another kind was issued
 }
 
 func c06Run(c *Ctx) {
@@ -332,8 +333,14 @@ func c06Run(c *Ctx) {
 	path := c06Paths[c.W.Draw(len(c06Paths))]
 	c.Comp = path
 	c.Note("stop_path", path)
-	c.state = &c06State{s, path}
+	st06 := &c06State{s: s, path: path}
+	c.state = st06
 	sup := supervisor.NewSupervisor(supervisor.WithAnyErrorDirective(supervisor.StopDirective))
+	if path == "supervisor-restart" {
+		// the failing child is restarted by its supervisor while traffic goes on:
+		// PreStart of the new incarnation must finish before it handles anything
+		sup = supervisor.NewSupervisor(supervisor.WithAnyErrorDirective(supervisor.RestartDirective))
+	}
 	parent, ppid, err := s.Spawn("parent", actor.WithLongLived())
 	if err != nil {
 		c.Fail("spawn-failed", "parent", "%v", err)
@@ -359,6 +366,17 @@ func c06Run(c *Ctx) {
 	_ = helper
 	nmsg := 3 + c.W.Draw(6)
 	stopAfter := c.W.Draw(nmsg + 1)
+	second := c.W.Draw(4) == 3 && path != "passivation" && path != "supervisor-restart" && path != "restart"
+	secondKind, secondLag := c.W.Draw(3), c.W.Draw(6)
+	c.Note("second_stop", second)
+	if second {
+		// Runs with two overlapping stop requests only decide "PostStop at most once"
+		// (and PreStart before Receive): which of the two stops ran PostStop, and
+		// with it the attribution of the overlap clauses to a stop path, is not
+		// known, and those clauses are decided by the runs with a single stop.
+		st06.second = true
+		s.CheckLifecycle = false
+	}
 	Join(func() {
 		for k := 0; k < nmsg; k++ {
 			cm := &Cmd{Tag: c.Seq(), From: 0, Seq: k}
@@ -395,7 +413,7 @@ func c06Run(c *Ctx) {
 			}}}})
 		case "parent-stop":
 			_ = s.Sys.Kill(s.Ctx, "parent")
-		case "supervisor-stop":
+		case "supervisor-stop", "supervisor-restart":
 			_ = s.Tell(cpid, &Cmd{Tag: c.Seq(), From: 1, Ops: []Op{{K: OpPanic, N: 0}}})
 		case "passivation":
 			// nothing to do: the passivation manager stops it when idle
@@ -405,6 +423,24 @@ func c06Run(c *Ctx) {
 			_ = s.Tell(cpid, &Cmd{Tag: c.Seq(), From: 1, Ops: []Op{{K: OpShutdown}}})
 		}
 		s.Ev(Ev{Actor: "child", Kind: "stop-returned", Aux: path})
+	}, func() {
+		// in some runs a second stop request of another kind overlaps the first
+		// one: whatever the combination, PostStop runs at most once
+		if !second {
+			return
+		}
+		for i := 0; i < stopAfter+secondLag; i++ {
+			Yield()
+		}
+		c.Fault("second-overlapping-stop")
+		switch secondKind {
+		case 0:
+			_ = s.Sys.Kill(s.Ctx, "child")
+		case 1:
+			_ = cpid.Shutdown(s.Ctx)
+		case 2:
+			_ = actor.Tell(s.Ctx, cpid, new(actor.PoisonPill))
+		}
 	})
 	Sleep(50 * time.Millisecond)
 	_ = s.Stop()
@@ -443,7 +479,7 @@ func c06Finish(c *Ctx) {
 				c.Fail("receive-before-prestart", st.path, "%s/%d handled a message (event #%d) before PreStart completed", e.Actor, e.Inc, e.Seq)
 				return
 			}
-			if i.stopEnter >= 0 && e.Kind == "recv-enter" {
+			if i.stopEnter >= 0 && e.Kind == "recv-enter" && !st.second {
 				qual := "accepted-after-stop-returned"
 				stopRet := -1
 				for _, x := range st.s.Log {
